@@ -1,2 +1,5 @@
 pub mod data;
 pub mod reflex;
+pub mod optable;
+pub mod refparse;
+pub mod sx;
